@@ -23,20 +23,29 @@ MUX = "penguin_mux::stream::MuxStream"
 ESD = "penguin_mux::EstablishedStreamData"
 
 
+def _bytes_container(path):
+    """True when a len()/is_empty() call is about BYTES (not about the number of slices in a vectored write)."""
+    if "IoSlice<" in path and ("[std::io::IoSlice" in path or "[IoSlice" in path or "Vec<" in path or "Vec::<" in path):
+        return False
+    if "[CowBytes" in path or "Vec<CowBytes" in path or "Vec::<CowBytes" in path:
+        return False
+    return True
+
+
 def nonempty_vals(g, payload_leaves):
     """edge values on which an expression sharing a provenance root with the payload is non-empty."""
     p = strip_casts(g.pred)
     if g.kind != "bool":
         return None
     if p.kind == "call" and p[6] == "is_empty" and p[3]:
-        if leaves(p[3][0]) & payload_leaves:
+        if leaves(p[3][0]) & payload_leaves and _bytes_container(p[2]):
             return {False}
         return None
     if p.kind == "bin":
         a, c = strip(p[2]), strip(p[3])
         for x, y, flip in ((a, c, False), (c, a, True)):
             if const_eval(y) == 0 and (leaves(x) & payload_leaves) and any(
-                    z.kind == "call" and z[6] in ("len", "remaining") for z in walk(x)):
+                    z.kind == "call" and z[6] in ("len", "remaining") and _bytes_container(z[2]) for z in walk(x)):
                 op = p[1]
                 if flip:
                     op = {"Lt": "Gt", "Gt": "Lt", "Le": "Ge", "Ge": "Le"}.get(op, op)
